@@ -9,6 +9,7 @@ import (
 	"os"
 	"path/filepath"
 
+	"github.com/JunNishimura/Goit/internal/fsutil"
 	"github.com/spf13/cobra"
 )
 
@@ -42,13 +43,8 @@ var initCmd = &cobra.Command{
 
 		// make .goit/HEAD file and write main branch
 		headFile := filepath.Join(goitDir, "HEAD")
-		f, err := os.Create(headFile)
-		if err != nil {
-			return fmt.Errorf("%w: %s", ErrIOHandling, headFile)
-		}
-		defer f.Close()
 		// set 'main' as default branch
-		if _, err := f.WriteString("ref: refs/heads/main"); err != nil {
+		if err := fsutil.WriteFileAtomic(goitDir, headFile, []byte("ref: refs/heads/main")); err != nil {
 			return fmt.Errorf("%w: %s", ErrIOHandling, headFile)
 		}
 
